@@ -46,7 +46,9 @@ _INSTANCES = ["A()", "B()", "C()", "D(1)", 'D(1, "y")', "G()", "WithX()", "Close
               # (instances of Rev / IntKeyed with content are left out: a literal of a dict subclass is read as
               # `Subclass[key type, value type]`, which is a recorded finding for classes whose own parameters
               # are permuted or partially applied)
-              "Rev()", 'Fwd({1: "a"})', 'Fwd({"a": 1})', "LS([1])", 'LS(["a"])']
+              "Rev()", 'Fwd({1: "a"})', 'Fwd({"a": 1})', "LS([1])", 'LS(["a"])',
+              # instances of subclasses of the promoted numeric types
+              "FSub(2.5)", "ISub(7)"]
 _CLASSES = ["int", "bool", "str", "float", "A", "B", "C", "type", "object", "E", "list", "D"]
 _FUNCS = ["len", "cond", "ident", "(lambda x: x)"]
 _MODULES = ["os", "math"]
@@ -83,7 +85,7 @@ LEAF_TYPES = [
     "N", "TD", "TDp", "TDn", "HasX", "SupportsClose", "type",
     "Literal[1]", "Literal[True]", 'Literal["a"]', "Literal[0, 1]", "Literal[E.a]", 'Literal[b"a"]',
     "Literal[None]", 'Literal[1, "a"]', "Literal[E.a, E.b]", "tuple[()]",
-    "Rev[int, str]", "Rev[str, int]", "Fwd[int, str]", "IntKeyed[str]", "LS[int]",
+    "Rev[int, str]", "Rev[str, int]", "Fwd[int, str]", "IntKeyed[str]", "LS[int]", "FSub", "ISub",
 ]
 UNARY = [
     "Optional[{0}]", "list[{0}]", "List[{0}]", "set[{0}]", "frozenset[{0}]", "tuple[{0}, ...]",
